@@ -169,6 +169,40 @@ fn consume_bits_contract() {
     kani::cover!(r.is_err());
 }
 
+// the const-generic twins must obey the same contract (they are the ones an optimised call site uses)
+fn consume_bits_const_contract_for<const N: usize>() {
+    let data: [u8; 9] = kani::any();
+    let mut bs = any_wf(&data);
+    let before = View::of(&bs);
+    let nrb = bs.num_read_bits;
+    let peeked = bs.peek_bits_prefilled_const::<N>();
+    let r = bs.consume_bits_const::<N>();
+    match &r {
+        Ok(()) => {
+            assert!(N <= before.rem);
+            assert!(wf(&bs));
+            assert!(peeked == before.u(0, N), "[C14,C04] peek_bits_prefilled_const::<N> returns u(N) of the buffered bits");
+            assert!(bs.num_read_bits == nrb + N, "[C14] bit position advances by N");
+            assert_view_advanced(&before, &View::of(&bs), N);
+        }
+        Err(e) => {
+            assert!(N > before.rem);
+            assert!(e.unexpected_eof(), "[C11]");
+            assert!(bs.num_read_bits == nrb && bs.buf == before.buf && bs.remaining_buf_bits == before.rem, "[C11] failed consume_bits_const changes nothing (position included)");
+        }
+    }
+    kani::cover!(r.is_ok());
+    kani::cover!(r.is_err());
+}
+
+#[kani::proof]
+#[kani::unwind(34)]
+fn consume_bits_const_contract() {
+    consume_bits_const_contract_for::<1>();
+    consume_bits_const_contract_for::<16>();
+    consume_bits_const_contract_for::<32>();
+}
+
 // ------------------------------------------------------------------------------------------------
 // skip_bits
 // ------------------------------------------------------------------------------------------------
